@@ -23,6 +23,7 @@ type c11World struct {
 	respond func(r gateway.Object) error
 	respondPeer func(p *Peer, r gateway.Object) error
 	validated map[types.BlockID]bool
+	realCall bool // run the real callRPC/callRPCContext over a stub stream
 	request func(r gateway.Object) error
 	wrote   []gateway.Object
 	// abstract consensus verdicts
@@ -36,6 +37,9 @@ var c11 *c11World
 
 //verif:replace (*go.sia.tech/coreutils/syncer.Peer).callRPC
 func stubCallRPC(p *Peer, r gateway.Object, timeout time.Duration) error {
+	if c11.realCall {
+		return p.callRPC(r, timeout)
+	}
 	c11.log = append(c11.log, "call")
 	if c11.respondPeer != nil {
 		return c11.respondPeer(p, r)
@@ -95,6 +99,7 @@ type vCM struct {
 	addErr   bool
 	added    [][]types.Block
 	addedV2  []types.Block
+	realTip  *types.ChainIndex // when the sync round starts below the node's tip
 	addedStates []consensus.State
 	poolTxns int
 	poolErr  bool
@@ -130,7 +135,12 @@ func (c *vCM) AddValidatedV2Blocks(blocks []types.Block, states []consensus.Stat
 	}
 	return nil
 }
-func (c *vCM) Tip() types.ChainIndex                                                  { return c.tip.Index }
+func (c *vCM) Tip() types.ChainIndex {
+	if c.realTip != nil {
+		return *c.realTip
+	}
+	return c.tip.Index
+}
 func (c *vCM) TipState() consensus.State                                              { return c.tip }
 func (c *vCM) PoolTransaction(txid types.TransactionID) (types.Transaction, bool) {
 	return types.Transaction{}, false
